@@ -42,6 +42,13 @@ func c02OnSend(t *rtTarget, resp *adminservice.StreamWorkflowReplicationMessages
 }
 
 func c02CheckFinal(e *rtEnv) {
+	// a message already handed to a stream is not modified afterwards (grpc's SendMsg contract; the
+	// senders rewrite ids and watermarks in place, so this also catches one message shared by two streams)
+	for _, t := range e.targets {
+		for k, m := range t.sent {
+			verifAssert(m.GetMessages().GetExclusiveHighWatermark() == t.sentHigh[k], "message-not-modified-after-it-was-handed-to-the-target-stream")
+		}
+	}
 	for k, rec := range e.tasks {
 		verifAssert(rec.seenCount == 1, "every-task-delivered-exactly-once")
 		// payload unchanged apart from the two id fields
